@@ -40,6 +40,7 @@ codes! {
     DrainFilter,     // list = predicate, v = delta, n = prefix (MAX = all), k = 0 drop / 1 forget
     // ---- map, bulk / whole ---------------------------------------------------------------
     Extend,          // list = k,v pairs
+    ExtendHinted,    // list = k,v pairs, n = lower size bound the iterator claims
     FromIter,        // list = k,v pairs; the built map replaces the current one
     Clear,
     Reserve,         // n
